@@ -206,6 +206,23 @@ impl<T> Queue<T> {
         unsafe { h.next.load(Acquire, guard).as_ref().is_none() }
     }
 
+    /// Whether the node `tail` points to is reachable from `head` (with no operation in progress
+    /// it is the last node or, after an interrupted push, the last but one: never a node that has
+    /// been popped and retired).
+    pub(crate) fn verif_tail_reachable(&self, guard: &Guard) -> bool {
+        let tail = self.tail.load(Acquire, guard);
+        let mut node = self.head.load(Acquire, guard);
+        loop {
+            if node.ptr_eq(tail) {
+                return true;
+            }
+            match unsafe { node.as_ref() } {
+                Some(n) => node = n.next.load(Acquire, guard),
+                None => return false,
+            }
+        }
+    }
+
     /// Applies `f` to the element at the front, if there is one.
     pub(crate) fn verif_front<R>(&self, f: impl Fn(&T) -> R, guard: &Guard) -> Option<R> {
         let head = self.head.load(Acquire, guard);
